@@ -26,6 +26,7 @@ func (stdin *Stdin) IsTTY() bool { return false }
 // Stats provides real time stream stats. Useful for progress bars etc.
 func (stdin *Stdin) Stats() (bytesWritten, bytesRead uint64) {
 	//stdin.mutex.RLock()
+	verifYield(stdin, "stats")
 	stdin.mutex.Lock()
 	bytesWritten = stdin.bWritten
 	bytesRead = stdin.bRead
@@ -37,6 +38,7 @@ func (stdin *Stdin) Stats() (bytesWritten, bytesRead uint64) {
 // GetDataType returns the murex data type for the stream.Io interface
 func (stdin *Stdin) GetDataType() (dt string) {
 	for {
+		verifYield(stdin, "g.sel")
 		select {
 		case <-stdin.ctx.Done():
 			// This should probably be locked to avoid a data race, but I'm also
@@ -56,6 +58,7 @@ func (stdin *Stdin) GetDataType() (dt string) {
 		default:
 		}
 
+		verifYield(stdin, "g.poll")
 		stdin.mutex.Lock()
 		//stdin.dtLock.Lock()
 		dt = stdin.dataType
@@ -87,6 +90,7 @@ func (stdin *Stdin) SetDataType(dt string) {
 	}
 
 	//stdin.dtLock.Lock()
+	verifYield(stdin, "sdt")
 	stdin.mutex.Lock()
 	if stdin.dataType == "" {
 		stdin.dataType = dt
